@@ -11,6 +11,9 @@ def _all():
         from .props_faults import C12, C13
         _CACHE['C12'] = C12()
         _CACHE['C13'] = C13()
+        from .props_history import C08, C09
+        _CACHE['C08'] = C08()
+        _CACHE['C09'] = C09()
         from .props_interrupt import C14
         _CACHE['C14'] = C14()
     return _CACHE
